@@ -34,7 +34,7 @@ type c17Scenario struct {
 	Modules    []c17Module       `json:"modules"`    // in some walk order, root first
 	Plugins    []c17Plugin       `json:"plugins"`
 	Clash      string            `json:"clash,omitempty"`      // which deliberate path clash the generator put in (histogram only)
-	OutputFile string            `json:"outputFile,omitempty"` // --output-file (only the main module is generated; not in the plan model)
+	OutputFile string            `json:"outputFile,omitempty"` // --output-file (only the main module is generated: model cliPlanOutputFile)
 	GoPath     bool              `json:"goPath,omitempty"`     // no --pkg-prefix: the prefix is derived from $GOPATH = {S}/gopath (Out lies below its src/)
 }
 
@@ -74,7 +74,11 @@ func (s c17Scenario) op(sandbox string) string {
 	if s.ThriftRoot != "" {
 		root = hxs(sub(s.ThriftRoot))
 	}
-	fmt.Fprintf(&sb, "GC %s %s %s %d", hxs(filepath.Join(sandbox, s.Cwd)), root, hxs(sub(s.Out)), len(s.Modules))
+	if s.OutputFile != "" {
+		fmt.Fprintf(&sb, "GO %s %s %s %s %d", hxs(filepath.Join(sandbox, s.Cwd)), root, hxs(sub(s.Out)), hxs(s.OutputFile), len(s.Modules))
+	} else {
+		fmt.Fprintf(&sb, "GC %s %s %s %d", hxs(filepath.Join(sandbox, s.Cwd)), root, hxs(sub(s.Out)), len(s.Modules))
+	}
 	for _, m := range s.Modules {
 		c := hxs("core")
 		if m.Fails {
@@ -577,7 +581,7 @@ func c17Check(c *checker, scs []c17Scenario, how string) {
 		} else {
 			c.rep.Hist("output-directory", "exists with content")
 		}
-		if impl != model && s.OutputFile == "" {
+		if impl != model {
 			c.rep.Disagree(report.Disagreement{Kind: "C17 thriftrw vs generate plan (" + how + ")", Input: input, Impl: impl + " | stderr: " + firstLine(res.stderr), Model: model})
 		}
 		// ---- implementation-side oracles ----
